@@ -197,11 +197,11 @@ func (e *Engine) resetPath(prefix []decision) {
 	b58Of = map[string]string{}
 	e.Clock, e.lastClockSym, e.robust, e.sleepDur = nil, "", nil, map[int]string{}
 	timeCmps = map[string]timeCmp{}
-	// finite key universes as ite-chains over literals: symbolic int->string conversion (str.from_int)
+	// finite key universes (indices 0..15) as ite-chains over literals: symbolic int->string conversion (str.from_int)
 	// made cvc5 diverge, an ite-chain keeps the query in the finite-domain fragment
 	chain := func(tag string, pad int) string {
 		ex := fmt.Sprintf("\"\\u{1}%s%0*d\"", tag, pad, 999)
-		for i := 7; i >= 0; i-- {
+		for i := 15; i >= 0; i-- {
 			ex = fmt.Sprintf("(ite (= i %d) \"\\u{1}%s%0*d\" %s)", i, tag, pad, i, ex)
 		}
 		return ex
